@@ -143,7 +143,7 @@ def run_case(case, ctx):
     elif rep == "ttensor":
         csz = tuple(min(s, 3) for s in shape)
         tf_ = [rng.standard_normal((s, c)) for s, c in zip(shape, csz)]
-        if case["cseed"] % 2:
+        if gen.pick(case) % 2:
             tf_ = [f / np.linalg.norm(f, axis=0) for f in tf_]        # unit-length but correlated columns (not orthonormal)
         D = _recording(ttb.ttensor)(ttb.tensor(scale * rng.standard_normal(csz)), tf_)
         Xd = denote(D)
